@@ -20,6 +20,8 @@
 //	f getattr | f setperm x | f chown | f persist | f resolve | f fault kind v
 //	f write t off bytes | f alloc t off len | f setattr t size x|- | f opentrunc t r w
 //	f ubegin t upload k|- fn [c] | f ucancel t | f putdone t ok | f fread t off len | f fclose t | f stat t fn
+//	f putchain t1 t2 upload k|- fn   (complete the Put of upload t1 and start upload / frozen open t2
+//	                                  from the goroutine that has just closed t1's frozen file)
 //	f openattr   (cfg 1/2: OPENATTR createdir + one attribute file; not part of the model)
 //
 // `c` / `ucancel`: the context passed to ApplyUploadFile is cancelled before the upload
@@ -41,6 +43,7 @@ import (
 	"context"
 	"fmt"
 	"os"
+	"runtime"
 	"sort"
 	"strconv"
 	"strings"
@@ -215,6 +218,8 @@ type thread struct {
 	dig    digest.Digest
 
 	cancel    context.CancelFunc
+	chain     func() // run in this thread's goroutine right after its call returned
+	mutSnap   int    // frozen open: mutation counter of the pool file when the reader was returned (-1: unset)
 	cancelled bool
 	accounted bool
 	advanced  bool // upload/frozen: got past the wait for writers
@@ -300,7 +305,13 @@ func (r *runner) call(body func() string) (tok string, done bool) {
 }
 
 func (r *runner) spawn(th *thread, body func() string) {
-	go func() {
+	go r.runInline(th, body)
+}
+
+// runInline runs a call in the current goroutine; a chained call (`putchain`) follows
+// in the same goroutine as soon as the result has been recorded.
+func (r *runner) runInline(th *thread, body func() string) {
+	func() {
 		defer func() {
 			if p := recover(); p != nil {
 				th.mu.Lock()
@@ -313,6 +324,53 @@ func (r *runner) spawn(th *thread, body func() string) {
 		th.tok, th.done = tok, true
 		th.mu.Unlock()
 	}()
+	th.mu.Lock()
+	c := th.chain
+	th.chain = nil
+	th.mu.Unlock()
+	if c != nil {
+		c()
+	}
+}
+
+// uploadBody is virtualBuildDirectory.UploadFile's VirtualApply(&ApplyUploadFile{...}).
+func (r *runner) uploadBody(f *fileW, th *thread, uctx context.Context) func() string {
+	return func() string {
+		p := virtual.ApplyUploadFile{
+			Context:                   uctx,
+			ContentAddressableStorage: r.cas,
+			DigestFunction:            digestFns[th.fn],
+			WritableFileUploadDelay:   r.delays.channel(th.k),
+		}
+		if !f.leaf.VirtualApply(&p) {
+			return "unhandled"
+		}
+		if p.Err != nil {
+			return errTok(p.Err)
+		}
+		th.mu.Lock()
+		th.dig = p.Digest
+		th.mu.Unlock()
+		return "digest " + digTok(p.Digest)
+	}
+}
+
+func (r *runner) frozenBody(f *fileW, th *thread) func() string {
+	return func() string {
+		p := virtual.ApplyOpenReadFrozen{WritableFileDelay: r.delays.channel(th.k)}
+		if !f.leaf.VirtualApply(&p) {
+			return "unhandled"
+		}
+		if p.Err != nil {
+			return errTok(p.Err)
+		}
+		_, _, _, mut := f.ff.snapshot()
+		th.mu.Lock()
+		th.reader = p.Reader
+		th.mutSnap = mut
+		th.mu.Unlock()
+		return "opened"
+	}
 }
 
 const attrMaskBase = virtual.AttributesMaskSizeBytes | virtual.AttributesMaskPermissions | virtual.AttributesMaskChangeID
@@ -394,7 +452,9 @@ func (r *runner) implDump(f *fileW) string {
 		links = strconv.FormatInt(st.LinkCount, 10)
 	}
 	var pcs []string
-	for _, th := range f.threads {
+	byID := append([]*thread(nil), f.threads...)
+	sort.Slice(byID, func(i, j int) bool { return byID[i].id < byID[j].id })
+	for _, th := range byID {
 		if th.retired {
 			continue
 		}
@@ -617,12 +677,19 @@ func (r *runner) accountThreads(f *fileW) {
 				}
 				r.out.flags["upload-parked"] = true
 			}
-			if pending {
+			// the contents must not change from the moment the call froze the file
+			if c := r.cas.pendingOf(th.id); c != nil {
 				_, _, _, mut := f.ff.snapshot()
+				if c.mut >= 0 {
+					mut = c.mut
+				}
 				f.holders[th.id] = mut
 			}
 			if done && th.kind == "frozen" && tok == "opened" {
 				_, _, _, mut := f.ff.snapshot()
+				if th.mutSnap >= 0 {
+					mut = th.mutSnap
+				}
 				f.holders[th.id] = mut
 			}
 		}
@@ -878,6 +945,9 @@ func (r *runner) apply(op string) bool {
 	}
 	name, args := ws[1], ws[2:]
 	ctx := context.Background()
+	if name == "putchain" {
+		return r.applyChain(f, args, op)
+	}
 
 	// the op as the model driver spells it, and its thread
 	mop, t := strings.Join(ws[1:], " "), -1
@@ -946,7 +1016,7 @@ func (r *runner) apply(op string) bool {
 	var itok string
 	var th *thread
 	if isNewThread {
-		th = &thread{id: t, f: idx, kind: name, k: -1}
+		th = &thread{id: t, f: idx, kind: name, k: -1, mutSnap: -1}
 	}
 	switch name {
 	case "link":
@@ -1254,7 +1324,7 @@ func (r *runner) apply(op string) bool {
 		th.k, th.fn = k, fn
 		if upload {
 			th.kind = "upload"
-			uctx, cancel := context.WithCancel(context.WithValue(ctx, tidKey{}, t))
+			uctx, cancel := context.WithCancel(context.WithValue(context.WithValue(ctx, tidKey{}, t), ffKey{}, f.ff))
 			th.cancel = cancel
 			if len(args) == 5 {
 				// the caller has already given up when the upload starts
@@ -1262,39 +1332,10 @@ func (r *runner) apply(op string) bool {
 				cancel()
 				r.out.flags["cancel-before-upload"] = true
 			}
-			r.spawn(th, func() string {
-				p := virtual.ApplyUploadFile{
-					Context:                   uctx,
-					ContentAddressableStorage: r.cas,
-					DigestFunction:            digestFns[fn],
-					WritableFileUploadDelay:   r.delays.channel(k),
-				}
-				if !f.leaf.VirtualApply(&p) {
-					return "unhandled"
-				}
-				if p.Err != nil {
-					return errTok(p.Err)
-				}
-				th.mu.Lock()
-				th.dig = p.Digest
-				th.mu.Unlock()
-				return "digest " + digTok(p.Digest)
-			})
+			r.spawn(th, r.uploadBody(f, th, uctx))
 		} else {
 			th.kind = "frozen"
-			r.spawn(th, func() string {
-				p := virtual.ApplyOpenReadFrozen{WritableFileDelay: r.delays.channel(k)}
-				if !f.leaf.VirtualApply(&p) {
-					return "unhandled"
-				}
-				if p.Err != nil {
-					return errTok(p.Err)
-				}
-				th.mu.Lock()
-				th.reader = p.Reader
-				th.mu.Unlock()
-				return "opened"
-			})
+			r.spawn(th, r.frozenBody(f, th))
 		}
 	case "stat":
 		if len(args) != 2 {
@@ -1427,6 +1468,111 @@ func (r *runner) apply(op string) bool {
 		r.out.flags["use-after-last-reference"] = true
 	}
 	r.afterSegment(f, name, mop, itok, op)
+	return true
+}
+
+// applyChain is `f putchain t1 t2 upload k|- fn`: the Put of upload t1 completes, and the
+// goroutine that has just consumed (closed) t1's frozen file immediately starts upload /
+// frozen open t2 of the same file — before a mutating call that was parked behind t1 and
+// has just been woken can re-take the file's lock (GOMAXPROCS(1) for this one segment: the
+// woken goroutine cannot run before the current one blocks again). Both orders of
+// [t2 freezes the file, the woken calls resume] are legal model runs; the harness takes the
+// one that explains what it observed.
+func (r *runner) applyChain(f *fileW, args []string, op string) bool {
+	if len(args) != 5 {
+		return false
+	}
+	t1, ok1 := atoi(args[0])
+	t2, ok2 := atoi(args[1])
+	upload, ok3 := flag(args[2])
+	k, ok4 := -1, true
+	if args[3] != "-" {
+		k, ok4 = atoi(args[3])
+	}
+	fn, ok5 := atoi(args[4])
+	if !(ok1 && ok2 && ok3 && ok4 && ok5) || k > 1 || fn > 1 {
+		return false
+	}
+	th1 := r.threads[t1]
+	if th1 == nil || th1.f != f.idx || th1.retired || r.threads[t2] != nil {
+		return false
+	}
+	c := r.cas.pendingOf(t1)
+	if c == nil {
+		return false
+	}
+	if r.drv != nil && !r.stopCmp {
+		if l := r.ask(fmt.Sprintf("legal %d putdone %d 1", f.idx, t1)); l != "yes" {
+			return false
+		}
+	}
+	if _, _, _, mut := f.ff.snapshot(); f.holders[t1] != mut {
+		r.fail("file %d: the contents changed (%d mutating pool calls) while upload %d had the file frozen", f.idx, mut-f.holders[t1], t1)
+	}
+	f.atRelease[t1] = f.content()
+	th2 := &thread{id: t2, f: f.idx, kind: "frozen", k: k, fn: fn, mutSnap: -1}
+	body := r.frozenBody(f, th2)
+	if upload {
+		th2.kind = "upload"
+		uctx, cancel := context.WithCancel(context.WithValue(context.WithValue(context.Background(), tidKey{}, t2), ffKey{}, f.ff))
+		th2.cancel = cancel
+		body = r.uploadBody(f, th2, uctx)
+	}
+	r.threads[t2] = th2
+	f.threads = append(f.threads, th2)
+	th1.mu.Lock()
+	th1.chain = func() { r.runInline(th2, body) }
+	th1.mu.Unlock()
+	prev := runtime.GOMAXPROCS(1)
+	c.done <- true
+	synctest.Wait()
+	runtime.GOMAXPROCS(prev)
+	progress.Add(1)
+	r.out.flags["op-putchain"] = true
+	r.out.flags["putdone-1"] = true
+
+	if r.drv != nil && !r.stopCmp {
+		r.modelOp(f, fmt.Sprintf("putdone %d 1", t1), t1)
+		begin := func() {
+			r.modelOp(f, fmt.Sprintf("ubegin %d %d %s %d", t2, b2i(upload), args[3], fn), t2)
+		}
+		orders := []func(){
+			func() { begin(); r.settle(f) },              // t2 freezes the file before the woken calls resume
+			func() { r.settle(f); begin(); r.settle(f) }, // the woken calls win the lock
+		}
+		r.ask("save")
+		saved := map[int]string{}
+		for k, v := range r.mtok {
+			saved[k] = v
+		}
+		found := false
+		for i, ord := range orders {
+			if i > 0 {
+				r.ask("restore")
+				r.mtok = map[int]string{}
+				for k, v := range saved {
+					r.mtok[k] = v
+				}
+			}
+			ord()
+			if r.stopCmp {
+				break
+			}
+			if ok, _, _ := r.agrees(f); ok {
+				found = true
+				r.out.flags[fmt.Sprintf("chain-order-%d", i)] = true
+				break
+			}
+		}
+		if !found && !r.stopCmp {
+			_, exp, act := r.agrees(f)
+			r.mismatch("FileRef correspondence (abstract state / call results) after `"+op+"`: no order of [second freeze, resumed calls] explains the implementation", exp, act)
+		}
+	}
+	r.accountThreads(f)
+	if !r.out.aborted {
+		r.monitorFile(f)
+	}
 	return true
 }
 
@@ -1800,6 +1946,26 @@ func makeGen(rnd *hx.Rand) func(r *runner, n int) string {
 			t := t
 			add(1, func() string { return fmt.Sprintf("%d ucancel %d", idx, t) })
 		}
+		if live < maxThreads && parkedU < maxParked {
+			// directed: a second upload / frozen open freezes the file again right when the
+			// first one unfreezes it, before the calls parked behind the first one resume
+			for _, t := range inPut {
+				t := t
+				w := 1
+				if parkedM > 0 {
+					w = 5
+				}
+				add(w, func() string {
+					k := []string{"-", "0", "1"}[rnd.Intn(3)]
+					for i := 0; i < 2; i++ { // with writers open prefer a delay channel that has fired
+						if f.wbits > 0 && r.delays.fired[i] && rnd.Chance(3, 4) {
+							k = strconv.Itoa(i)
+						}
+					}
+					return fmt.Sprintf("%d putchain %d %d %d %s %d", idx, t, newT(), b2i(rnd.Chance(3, 4)), k, rnd.Intn(2))
+				})
+			}
+		}
 		if f.cfg != 0 && !f.dead() && (len(f.attrFiles) == 0 || rnd.Chance(1, 10)) {
 			add(1, func() string { return fmt.Sprintf("%d openattr", idx) })
 		}
@@ -1848,11 +2014,15 @@ var fixedHistories = [][]string{
 	// reference goes away through Unlink (releases the attribute directory and its handles)
 	{"new 0 2 0 0 0 0", "0 openattr", "0 resolve", "0 unlink", "0 resolve", "0 open 1 0"},
 	{"new 0 1 0 1 0 0", "0 openattr", "0 unlink", "0 close 0 1"},
+	// a writer outlives the bounded wait and parks behind upload 2; when upload 2 unfreezes the file,
+	// upload 4 (frozen open 3 in the second history) freezes it again before the woken call resumes
+	{"new 0 1 0 1 0 0", "fire 0", "0 write 1 0 1.2.3", "0 ubegin 2 1 0 0", "0 write 3 0 9.9", "0 putchain 2 4 1 0 0", "0 putdone 4 1"},
+	{"new 0 0 0 0 0 3", "0 ubegin 1 1 - 1", "0 setattr 2 1 -", "0 opentrunc 5 0 1", "0 putchain 1 3 0 - 0", "0 fread 3 0 3", "0 fclose 3"},
 	// the same for a write and an allocation whose descriptor is closed while they are parked
 	{"new 0 2 0 0 0 0", "0 ubegin 1 0 - 0", "0 open 0 1", "0 write 2 0 1.2", "0 alloc 3 0 4", "0 unlink", "0 close 0 1", "0 fclose 1", "0 write 4 0 9", "0 setattr 5 2 -"},
 }
 
-const rule = "histories of <=200 ops on <=3 files (bare / FUSE-wrapped / NFS-wrapped pool-backed files): link/unlink, open/close with every share mask incl. partial closes, read/seek/getattr/setperm/chown, write/allocate/size change/O_TRUNC (parking behind frozen readers; also issued or resumed after the last reference is gone), uploads and frozen opens with 2 digest functions and 2 delay channels or none (parking behind writers; writer closes during the wait; delay fires), upload contexts cancelled before the upload / during the wait for writers / inside Put, named attribute directories (OPENATTR + attribute file) on FUSE/NFS-wrapped files, completion of the CAS Put ok|err, frozen reads, output-service stat, persisted cached digest, NFS handle resolution, sticky pool faults (WriteAt none/partial, Truncate, ReadAt), generated from the running implementation's state in a synctest bubble, plus 8 fixed histories; every history ends with complete-all + close-all + unlink-all; non-trivial = the pool file was closed by the disappearance of the last reference, an upload returned a digest, and some call parked (a mutator behind a frozen reader or an upload behind a writer); distinct = hash of the executed op list"
+const rule = "histories of <=200 ops on <=3 files (bare / FUSE-wrapped / NFS-wrapped pool-backed files): link/unlink, open/close with every share mask incl. partial closes, read/seek/getattr/setperm/chown, write/allocate/size change/O_TRUNC (parking behind frozen readers; also issued or resumed after the last reference is gone), uploads and frozen opens with 2 digest functions and 2 delay channels or none (parking behind writers; writer closes during the wait; delay fires), upload contexts cancelled before the upload / during the wait for writers / inside Put, named attribute directories (OPENATTR + attribute file) on FUSE/NFS-wrapped files, directed re-freeze (`putchain`: a second upload / frozen open freezes the file in the segment in which the first one unfreezes it, before the parked mutators resume), completion of the CAS Put ok|err, frozen reads, output-service stat, persisted cached digest, NFS handle resolution, sticky pool faults (WriteAt none/partial, Truncate, ReadAt), generated from the running implementation's state in a synctest bubble, plus 10 fixed histories; every history ends with complete-all + close-all + unlink-all; non-trivial = the pool file was closed by the disappearance of the last reference, an upload returned a digest, and some call parked (a mutator behind a frozen reader or an upload behind a writer); distinct = hash of the executed op list"
 
 func nontrivial(o *outcome) bool {
 	return o.flags["closed-by-last-reference"] && o.flags["upload-ok"] && (o.flags["mutator-parked"] || o.flags["upload-parked"])
